@@ -105,14 +105,18 @@ def showRes : Res → String
   | .val v => String.ofList v
   | .ty t => String.ofList t
 
+def answer (p : Prog) (g : Nat) : String :=
+  match Resolver2.resultsOf p 400 g with
+  | none => "diverge"
+  | some rs => "(" ++ String.intercalate ", " (rs.map fun r => String.intercalate " | " (r.map showRes)) ++ ")"
+
+/-- `<query>` is one function index, or a comma list of indices asked one after the other — every
+    question is answered from scratch, as `ResultsOf` promises -/
 def run (toks : List String) : String :=
   match toks with
   | q :: "P" :: n :: rest =>
     (match parseFuncs n.toNat! rest with
-     | some (p, []) =>
-       (match Resolver2.resultsOf p 400 q.toNat! with
-        | none => "diverge"
-        | some rs => "(" ++ String.intercalate ", " (rs.map fun r => String.intercalate " | " (r.map showRes)) ++ ")")
+     | some (p, []) => String.intercalate ";" ((q.splitOn ",").map fun g => answer p g.toNat!)
      | _ => "bad-program")
   | _ => "bad-op"
 
